@@ -1325,6 +1325,9 @@ func (n *Node) appKey() uint64 {
 		s.b(0)
 	}
 	s.u64(uint64(n.incarnation))
+	if n.earlierLife {
+		s.b(0xe1)
+	}
 	s.u64(uint64(n.permMode))
 	s.u64(uint64(len(n.pool)))
 	for _, h := range n.pool {
